@@ -30,6 +30,11 @@ let run (c : s list) : s option =
      | A "from_bytes" :: d :: _ -> Some (e_outcome e_bdd (from_bytes_m (Ops_serial.bytes_of_string (d_hex d))))
      | A "eval_expr_string" :: names :: x :: _ ->
        Some (Ops_expr.with_vs names (fun ns -> e_outcome e_bdd (eval_expr_string ns (Ops_expr.d_str x))))
+     | A "dot_write_sched" :: b :: ns :: pr :: sc :: _ ->
+       Some (match dot_write_sched_m (d_bdd b) (Ops_dot.d_names ns) (d_bool pr) (Ops_serial.d_sched sc) with
+           | Ok r -> Ops_serial.e_written r
+           | Panic -> A "PANIC"
+           | OutOfFuel -> A "FUEL")
      | A "vs_assignment" :: spec :: _ ->
        Some (Ops_varset.with_set spec (fun vs ->
            L (A "L" :: List.mapi (fun i nm -> L [A "P"; A (string_of_int i); Ops_dot.e_name nm]) (variable_names vs))))
